@@ -21,7 +21,8 @@
  *   <class> numbers the distinct YANG_COMPILED prints of that module in order of first appearance within the history
  *   <data> one char per D tree: u usable (same schema nodes, prints and validates), s schema nodes replaced or gone (tree dropped),
  *          b same nodes but print/validation failed, - dropped earlier
- * and one token D<rc> per D step.  Only modules after the internal ones are listed (the hash covers exactly those). */
+ * and one token D<rc> per D step.  Only modules after the internal ones are listed (whether the hash covers the internal
+ * ones as well is read from context.c by the translator, Generated/CtxFacts.lean: hashSkipsInternal). */
 #define _GNU_SOURCE
 #include "ctx_hist.h"
 
